@@ -357,7 +357,9 @@ class SymEval:
         f = call.func
         if isinstance(f, ast.Attribute) and isinstance(f.value, ast.Name) and f.value.id == 'self' and self.cls is not None:
             callee = self.cls.find(f.attr)
-            if callee is not None and f.attr not in ('_emit', 'emit', '_retain_refs', '_release_refs') and f.attr not in self.no_splice:
+            stream_api = callee is not None and f.attr in ('_emit', 'emit', '_retain_refs', '_release_refs') and \
+                getattr(callee.cls, 'name', None) == 'Stream'
+            if callee is not None and not stream_api and f.attr not in self.no_splice:
                 static = any(src(d) == 'staticmethod' for d in callee.node.decorator_list)
                 if not any(src(d) in ('property', 'classmethod') for d in callee.node.decorator_list):
                     return callee, (0 if static else 1)
@@ -385,6 +387,23 @@ class SymEval:
                     if isinstance(v, ast.Name) and v.id[:1] == 'C' and v.id[1:].isdigit():
                         q.awaited_calls.add(int(v.id[1:]))
                 yield q, v
+            return
+        if isinstance(node, ast.IfExp):
+            # conditional expression: two paths, like an if statement
+            for q0, t in self.eval_value(r, node.test, fn, loop, depth):
+                if isinstance(t, ast.Constant):
+                    yield from self.eval_value(q0, node.body if t.value else node.orelse, fn, loop, depth)
+                    continue
+                key = src(t)
+                known = None
+                if _pure_test(t) and key not in q0.stale:
+                    known = next((o for c, o in reversed(q0.conds) if c == key), None)
+                for outcome, arm in ((True, node.body), (False, node.orelse)):
+                    if known is not None and outcome != known:
+                        continue
+                    q = q0.copy()
+                    q.conds.append((key, outcome))
+                    yield from self.eval_value(q, arm, fn, loop, depth)
             return
         if isinstance(node, ast.Call):
             h = self._helper(fn, node) if depth < self.depth else None
@@ -503,7 +522,8 @@ class SymEval:
                 walk(n.values[0], False)
                 return
             if isinstance(n, ast.IfExp):
-                walk(n.test, False)
+                if not top:
+                    out.append(n)
                 return
             for ch in ast.iter_child_nodes(n):
                 walk(ch, False)
